@@ -385,6 +385,19 @@ def body_so31(case, ctx):
         ctx.label("real-input")
         ctx.close("on SL(2,R) the image is sl2_to_so21(A) (+) 1", np.real(as_num(fa))[:3, :3],
                   lie.sl2_to_so21(np.real(A)), rtol=0, atol=1e-10 * sc)
+        # SL(2,R) inside SL(2,C) stored with a REAL dtype: the same matrix, the same image,
+        # to full double precision
+        Ar = np.ascontiguousarray(np.real(A))
+        fr = as_num(lie.sl2c_to_so31(Ar.copy()))
+        ctx.close("sl2c_to_so31 of a real-typed matrix = of the same matrix typed complex",
+                  np.real(fr), np.real(as_num(fa)), rtol=0, atol=1e-12 * sc)
+        J4 = np.diag([-1.0, 1.0, 1.0, 1.0])
+        ctx.close("sl2c_to_so31 of a real-typed matrix preserves diag(-1,1,1,1)",
+                  np.real(fr).T @ J4 @ np.real(fr), J4, rtol=0, atol=1e-11 * sc ** 2)
+        if case["B"]["kind"] == "realfloat":
+            Br = np.ascontiguousarray(np.real(B))
+            close_hom(ctx, "sl2c_to_so31(AB) = sl2c_to_so31(A) sl2c_to_so31(B), real dtype",
+                      lie.sl2c_to_so31(Ar @ Br), fr, as_num(lie.sl2c_to_so31(Br.copy())), exact)
 
 
 # ---------------------------------------------------------------------------
